@@ -228,7 +228,7 @@ def ev(node, consts, depth=0):
             if p[0] in consts:
                 return ev(consts[p[0]], consts, depth + 1)
             raise EvalError('unresolved name %s' % p[0])
-        return ('enum', p[-1])
+        return ('enum', p[-1], p[-2] if len(p) >= 2 else None)
     if k == 'call':
         p, a = node[1], node[2]
         last = p[-1]
